@@ -51,7 +51,12 @@ class CallMixin:
                 import dataclasses
 
                 base_c = self.registry[override[0]]
-                override = dataclasses.replace(base_c, effects=list(base_c.effects) + list(override[1]))
+                new_raises = base_c.raises
+                if len(override) > 2:
+                    # (key, effects on normal return, effects when an Exception (not SystemExit) is raised)
+                    new_raises = [dataclasses.replace(rz, effects=list(rz.effects) + (list(override[2]) if rz.exc != "SystemExit" else []))
+                                  for rz in base_c.raises]
+                override = dataclasses.replace(base_c, effects=list(base_c.effects) + list(override[1]), raises=new_raises)
         # evaluate callee and arguments
         outs: List[Out] = []
         if override is not None:
